@@ -38,7 +38,7 @@ what the optimiser's parameter holds -/
 structure Brent.Inv (g : ℝ → ℝ) (J : F → PList ℝ → Prop) (m : ℝ) (s : St F (Brent ℝ) ℝ) : Prop where
   fx : s.ext.fx = g s.ext.x
   j : J s.fn s.core.params
-  held : value0 s.core.params = some s.ext.x
+  held : ∃ y, value0 s.core.params = some y ∧ g y = g s.ext.x
   m : s.ext.fx ≤ m
 
 theorem brentStop_same (s : St F (Brent ℝ) ℝ) :
@@ -128,9 +128,10 @@ theorem brentOptimize_spec (I : FunI F ℝ) (g : ℝ → ℝ) (hd : Det I g J) (
       rw [hf] at h
       simp only [Except.ok.injEq, Prod.mk.injEq] at h
       obtain ⟨rfl, rfl⟩ := h
-      obtain ⟨hv, hJ2⟩ := hd.direct _ _ _ _ _ hL.j hL.held hf
-      refine ⟨?_, rfl, _, hv, hL.held, hJ2⟩
-      rw [hv, ← hL.fx]; exact hL.m
+      obtain ⟨y, hy, hgy⟩ := hL.held
+      obtain ⟨hv, hJ2⟩ := hd.direct _ _ _ _ _ hL.j hy hf
+      refine ⟨?_, rfl, y, hv, hy, hJ2⟩
+      rw [hv, hgy, ← hL.fx]; exact hL.m
 
 /-- `BrentOneDimension::doInit` -/
 theorem brentDoInit_spec (I : FunI F ℝ) (g : ℝ → ℝ) (hd : Det I g J) (fuel : Nat) (s s1 : St F (Brent ℝ) ℝ)
@@ -177,7 +178,7 @@ theorem brentDoInit_spec (I : FunI F ℝ) (g : ℝ → ℝ) (hd : Det I g J) (fu
         rw [hx0] at h
         simp only [Except.ok.injEq] at h
         subst h
-        exact ⟨hfx0, hJ1, hx0, le_min (le_of_eq hfx0) (le_trans (le_of_lt hlt) hkm)⟩
+        exact ⟨hfx0, hJ1, ⟨x0, hx0, rfl⟩, le_min (le_of_eq hfx0) (le_trans (le_of_lt hlt) hkm)⟩
       · rename_i hnlt
         have hge : k.b.f ≤ fx0 := by
           by_contra hc
@@ -190,5 +191,19 @@ theorem brentDoInit_spec (I : FunI F ℝ) (g : ℝ → ℝ) (hd : Det I g J) (fu
           obtain ⟨hv, hJ2, -, hst, -⟩ := evalOwn_spec I g hd _ _ _ _ he hJ1
           have hfb : fxb = k.b.f := by rw [hv]; exact hkb.symm
           exact ⟨hv, hJ2, hst, le_min (by rw [hfb, ← hfx0]; exact hge) (by rw [hfb]; exact hkm)⟩
+
+/-- `AbstractOptimizer::init` for Brent's method -/
+theorem brentInit_spec (I : FunI F ℝ) (g : ℝ → ℝ) (hd : Det I g J) (fuel : Nat) (s s1 : St F (Brent ℝ) ℝ)
+    (params : PList ℝ) (x0 : ℝ) (h : (brentAlgo I fuel).init s params = .ok s1)
+    (hJ : J s.fn (applyPolicy s.core.policy params)) (hx0 : value0 (applyPolicy s.core.policy params) = some x0) :
+    Brent.Inv g J (min (g x0) (min (g s.ext.xinf) (g s.ext.xsup))) s1 := by
+  unfold Algo.init at h
+  dsimp only at h
+  split at h
+  · cases h
+  rename_i sa hdi
+  simp only [Except.ok.injEq] at h
+  have hi := brentDoInit_spec I g hd fuel _ _ params x0 hdi hJ hx0
+  rw [← h]; exact hi.congr rfl rfl rfl
 
 end Bpp.Optim
